@@ -222,6 +222,8 @@ def main(ctx):
                     ctx.check({'kind': 'prefix', 'prefix': prefix, 'msg': d, 'how': how}, sample=False)
     for how in HOWS:
         ctx.check({'kind': 'volume', 'n': 3000, 'how': how}, sample=False)
+    for how in ('list', 'bytes', 'bytewise-late'):
+        ctx.check({'kind': 'volume', 'n': 40000, 'how': how}, sample=False)
     # real-time inside sysex: exhaustive one and two insertions
     maxpay = 8 if ctx.tier == 'thorough' else 5
     for L in range(0, maxpay + 1):
